@@ -418,12 +418,81 @@ func c12R7(p *core.Prog, r *core.Report) {
 	// cursors into the id; the cursor that a method of Aof restarts at constant 0 while it
 	// stores a computed value into the other one is the minor key.
 	cursorOf := map[string]string{} // Aof field -> AofLock field
-	for _, b := range cur.Blocks {
-		for _, ins := range b.Instrs {
-			if st, ok := ins.(*ssa.Store); ok {
-				if fa, ok := st.Addr.(*ssa.FieldAddr); ok {
-					if src, ok := loadField(st.Val); ok {
-						cursorOf[src] = core.FieldKeyOf(fa.X.Type(), fa.Field).Field
+	isAofLockField := func(k core.FieldKey) bool { return k.Type == "server.AofLock" }
+	isAofField := func(k core.FieldKey) bool { return k.Type == "server.Aof" }
+	loadKey := func(v ssa.Value) (core.FieldKey, bool) {
+		u, ok := v.(*ssa.UnOp)
+		if !ok {
+			return core.FieldKey{}, false
+		}
+		fa, ok := u.X.(*ssa.FieldAddr)
+		if !ok {
+			return core.FieldKey{}, false
+		}
+		return core.FieldKeyOf(fa.X.Type(), fa.Field), true
+	}
+	// which parameter of an AofLock method is stored into which AofLock field
+	paramField := map[*ssa.Function]map[int]string{}
+	for _, fn := range p.FuncsIn("server") {
+		if fn.Blocks == nil || recvName(fn) != "AofLock" {
+			continue
+		}
+		for _, b := range fn.Blocks {
+			for _, ins := range b.Instrs {
+				st, ok := ins.(*ssa.Store)
+				if !ok {
+					continue
+				}
+				fa, ok := st.Addr.(*ssa.FieldAddr)
+				if !ok {
+					continue
+				}
+				k := core.FieldKeyOf(fa.X.Type(), fa.Field)
+				if pr, ok := st.Val.(*ssa.Parameter); ok && isAofLockField(k) {
+					for i, fp := range fn.Params {
+						if fp == pr {
+							if paramField[fn] == nil {
+								paramField[fn] = map[int]string{}
+							}
+							paramField[fn][i] = k.Field
+						}
+					}
+				}
+			}
+		}
+	}
+	_ = cur
+	for _, fn := range p.FuncsIn("server") {
+		for _, b := range fn.Blocks {
+			for _, ins := range b.Instrs {
+				switch t := ins.(type) {
+				case *ssa.Store:
+					fa, ok := t.Addr.(*ssa.FieldAddr)
+					if !ok {
+						continue
+					}
+					dst := core.FieldKeyOf(fa.X.Type(), fa.Field)
+					src, ok := loadKey(t.Val)
+					if !ok {
+						continue
+					}
+					if isAofLockField(dst) && isAofField(src) {
+						cursorOf[src.Field] = dst.Field // id built from the log's cursors
+					}
+					if isAofField(dst) && isAofLockField(src) {
+						cursorOf[dst.Field] = src.Field // cursor adopted from a replicated record
+					}
+				case ssa.CallInstruction:
+					callee := t.Common().StaticCallee()
+					if callee == nil || paramField[callee] == nil {
+						continue
+					}
+					for i, a := range t.Common().Args {
+						if f, ok := paramField[callee][i]; ok {
+							if src, ok := loadKey(a); ok && isAofField(src) {
+								cursorOf[src.Field] = f
+							}
+						}
 					}
 				}
 			}
